@@ -2,7 +2,7 @@ from engine.core import Job
 META = dict(
     level="proof",
     claim="run_subprocess returns to the driver only when a child was really started and its wait status is 0 (any non-zero exit status or death by signal ends the driver with a failure exit; the child branch never returns into the driver); create_tmpfile hands out a path only after mkstemp succeeded and after registering it for removal; cleanup unlinks every registered temporary exactly once. Real main.c under assumed contracts of fork/execvp/wait/mkstemp/unlink/exit with every outcome nondeterministic.",
-    note="Assumed: the OS calls behave as their stubs state (fork: -1/0/pid; execvp returns only on failure; wait writes the status only when it reaps the child; exit never returns). Not applicable within this family: interleavings of concurrent driver invocations, kernel-side uniqueness of mkstemp, file-system state after exit. cc1 opens the output file only after codegen returned and codegen writes to a memory buffer. Not covered: per-input pipeline ordering in main().",
+    note="Assumed: the OS calls behave as their stubs state (fork: -1/0/pid; execvp returns only on failure; wait writes the status only when it reaps the child; exit never returns). Not applicable within this family: interleavings of concurrent driver invocations, kernel-side uniqueness of mkstemp, file-system state after exit. cc1 opens the output file only after codegen returned and codegen writes to a memory buffer. main() on 'chibicc -c|-S|-o out a.c b.c' with run_subprocess/run_linker as recording stand-ins that may fail at any launch: launches are per input front end then assembler on exactly that file, linker last; every temporary comes from mkstemp and is registered before anything can fail; atexit(cleanup) precedes the first temporary (bounded: two inputs, three command shapes).",
     functions=["main.c:run_subprocess", "main.c:create_tmpfile", "main.c:cleanup", "main.c:cc1", "main.c:open_file", "main.c:must_tokenize_file", "main.c:append_tokens", "strings.c:strarray_push"],
     trusted_base=["CBMC 6.11", "OS interface stubs (assumed contracts)"],
     assumptions=["fork/execvp/wait/mkstemp/unlink/exit stubs", "sequential execution of one driver process"],
@@ -12,4 +12,6 @@ def jobs(tier):
     return [Job(name="run_subprocess", src="driver.c", group="C14.1 wait status", defs={"FN": "0"}, sample="run_subprocess under every fork/exec/wait outcome", **P),
             Job(name="create_tmpfile", src="driver.c", group="C14.2 temporaries", defs={"FN": "1"}, sample="create_tmpfile under every mkstemp outcome", **P),
             Job(name="cc1-order", src="cc1order.c", group="C14.3 output after codegen", defs={}, sample="cc1() with every front-end stage able to fail", **P),
+            *[Job(name=f"pipeline-{['c', 'S', 'link'][m]}", src="pipeline.c", group="C14.4 per-input pipeline", defs={"MODE": str(m)}, redirect={"run_subprocess": "stub_run_subprocess", "run_linker": "stub_run_linker"},
+                  cbmc_flags=["--paths lifo"], bounded="two inputs, one command shape per job, any launch may fail", sample="main() on 'chibicc " + ["-c", "-S", "-o out"][m] + " a.c b.c' with a failure possible at every launch", **dict(P, unwind=70)) for m in range(3)],
             Job(name="cleanup", src="driver.c", group="C14.2 temporaries", defs={"FN": "2"}, sample="cleanup over 0..3 registered temporaries", **P)]
